@@ -351,6 +351,14 @@ class Engine:
         """A Boolean structural choice (concrete ``bool``)."""
         return bool(self.fresh_bool(name))
 
+    def lift(self, expr):
+        """A z3 Boolean term as a value of this engine."""
+        return SymBool(self, expr)
+
+    def term(self, v):
+        """The z3 term of a Boolean value of this engine."""
+        return v.e if isinstance(v, SymBool) else z3.BoolVal(bool(v))
+
     # ---- solver plumbing
     def _assume(self, expr):
         self.solver.add(expr)
@@ -615,7 +623,20 @@ class ConcreteEngine:
         return bool(self.values.get(name, False))
 
     def concretize(self, e):
+        if isinstance(e, z3.ExprRef):
+            return z3.simplify(e).as_long()
         return int(e)
+
+    def lift(self, expr):
+        r = z3.simplify(expr)
+        if z3.is_true(r):
+            return True
+        if z3.is_false(r):
+            return False
+        raise Inconclusive("concrete replay met a non-constant term: %s" % r)
+
+    def term(self, v):
+        return z3.BoolVal(bool(v))
 
     def assume(self, cond):
         if not cond:
